@@ -144,6 +144,21 @@ func (vc *VC) frameObligations(c *Contract, args []Val, out *State) {
 	for _, t := range targets {
 		by[t.name] = append(by[t.name], t)
 	}
+	groups := map[string][]string{}
+	var order []string
+	emit := func(name, goal string) {
+		g := name
+		// (one obligation per heap; grouping per object type made the queries harder, not cheaper)
+		if _, ok := groups[g]; !ok {
+			order = append(order, g)
+		}
+		groups[g] = append(groups[g], goal)
+	}
+	defer func() {
+		for _, g := range order {
+			vc.oblige(out, "frame", g, and(groups[g]...), vc.fn.Pos(), nil)
+		}
+	}()
 	for _, name := range out.heap.names() {
 		cur := out.heap.m[name]
 		base := smtName(name)
@@ -179,10 +194,33 @@ func (vc *VC) frameObligations(c *Contract, args []Val, out *State) {
 		if whole {
 			continue
 		}
+		// syntactic discharge: every modification of this heap was at a key that is
+		// literally one of the keys of this function's own assigns clauses
+		if !vc.untracked[name] {
+			all := true
+			for _, m := range vc.heapMods[name] {
+				found := false
+				for ki, kk := range keys {
+					oc := by[name][ki].cond
+					if kk == m.key && (oc == "" || oc == m.cond) {
+						found = true
+						break
+					}
+				}
+				if !found {
+					all = false
+					break
+				}
+			}
+			if all {
+				emit(name, "true")
+				continue
+			}
+		}
 		vc.declare(base, srt)
 		if !strings.HasPrefix(srt, "(Array ") {
 			// scalar global / ghost
-			vc.oblige(out, "frame", name, eq(cur, base), vc.fn.Pos(), nil)
+			emit(name, eq(cur, base))
 			continue
 		}
 		// skolem key
@@ -194,14 +232,22 @@ func (vc *VC) frameObligations(c *Contract, args []Val, out *State) {
 			conds = append(conds, app("bvult", key, "alloc0"))
 		case strings.HasPrefix(name, "A!"):
 			conds = append(conds, app("bvult", "((_ zero_extend 16) ((_ extract 63 16) "+key+"))", "alloc0"))
-		case strings.HasPrefix(name, "M!"), strings.HasPrefix(name, "Z!rv"):
-			conds = append(conds, app("bvult", key, "alloc0"))
+		case strings.HasPrefix(name, "M!"):
+			// map contents: pre-existing maps (the nil map has no contents)
+			conds = append(conds, app("bvult", key, "alloc0"), not(eq(key, bvLit(64, 0))))
+		case strings.HasPrefix(name, "Z!rv"):
+			// abstract field store: cells of pre-existing objects (object 0 is "no object")
+			conds = append(conds, app("bvult", key, "alloc0"), not(eq(key, bvLit(64, 0))))
 		}
-		for _, kk := range keys {
-			conds = append(conds, not(eq(key, kk)))
+		for ki, kk := range keys {
+			if c := by[name][ki].cond; c != "" {
+				conds = append(conds, not(and(c, eq(key, kk))))
+			} else {
+				conds = append(conds, not(eq(key, kk)))
+			}
 		}
 		goal := imp(and(conds...), eq(sel(cur, key), sel(base, key)))
-		vc.oblige(out, "frame", name, goal, vc.fn.Pos(), nil)
+		emit(name, goal)
 	}
 }
 
@@ -333,6 +379,10 @@ func (w *World) verifyLemma(l *Lemma) (res *FuncResult) {
 	vc.obls = append(vc.obls, &Obligation{Name: vc.label + "#cover.hyps", Kind: "cover", Fn: vc.label, Props: l.Raw.Props,
 		Prefix: len(vc.script), Cond: "true", Goal: "false", Expect: "sat"})
 	vc.oblige(st, "lemma", "", vc.specBool(env, l.Concl), l.Decl.Pos(), l.Raw.Props)
+	if vc.revealed["rvtables"] {
+		o := vc.obls[len(vc.obls)-1]
+		o.Extra = append(o.Extra, vc.rvTableAxioms(-1)...)
+	}
 	return res
 }
 
@@ -444,7 +494,7 @@ func (w *World) subtypePairs() [][2]*Contract {
 			if cc.Fn == nil || cc.Fn.Signature.Recv() == nil || cc.Raw.Name != ic.Raw.Name {
 				continue
 			}
-			if types.Implements(cc.Fn.Signature.Recv().Type(), it) {
+			if types.Implements(cc.Fn.Signature.Recv().Type(), it) && !cc.Raw.NoSubtype {
 				out = append(out, [2]*Contract{ic, cc})
 			}
 		}
